@@ -190,6 +190,12 @@ func same(a, b int) bool { return a == b }
 type EditCase struct {
 	Lhs []int `json:"lhs"`
 	Rhs []int `json:"rhs"`
+	// When Buf is set, lhs and rhs are the views Buf[LV[0]:LV[1]] and
+	// Buf[RV[0]:RV[1]] of ONE shared backing array (callers diff a slice
+	// against a prefix, a suffix or an appended version of itself).
+	Buf []int  `json:"buf,omitempty"`
+	LV  [2]int `json:"lv,omitempty"`
+	RV  [2]int `json:"rv,omitempty"`
 }
 
 var c11Names = []string{
@@ -241,6 +247,11 @@ func spanOf(s, in, pristine []int, pos int) string {
 
 func checkEdit(c EditCase) (in info, msg string) {
 	lhs, rhs := slices.Clone(c.Lhs), slices.Clone(c.Rhs)
+	if c.Buf != nil {
+		buf := slices.Clone(c.Buf)
+		lhs, rhs = buf[c.LV[0]:c.LV[1]], buf[c.RV[0]:c.RV[1]]
+		c.Lhs, c.Rhs = slices.Clone(lhs), slices.Clone(rhs)
+	}
 	errf := func(format string, args ...any) string {
 		return fmt.Sprintf("EditScript(lhs=%s, rhs=%s): ", brief(c.Lhs), brief(c.Rhs)) + fmt.Sprintf(format, args...)
 	}
